@@ -707,6 +707,30 @@ func c08HeaderState(c *Ctx) {
 						cont = true
 					}
 				}
+				// or: the validation of the value is the else branch of the absence test (nothing validates outside it)
+				if !cont && end > 0 {
+					after := strings.TrimLeft(rest[end+1:], " \t\r\n")
+					if strings.HasPrefix(after, "else") {
+						off := len(rest) - len(after)
+						if ob := strings.Index(after, "{"); ob >= 0 {
+							d2, e2 := 0, -1
+							for q := off + ob; q < len(rest) && e2 < 0; q++ {
+								switch rest[q] {
+								case '{':
+									d2++
+								case '}':
+									d2--
+									if d2 == 0 {
+										e2 = q
+									}
+								}
+							}
+							if e2 > 0 && !strings.Contains(block, "validateHeaderValue(") && !strings.Contains(rest[e2+1:], "validateHeaderValue(") {
+								cont = true
+							}
+						}
+					}
+				}
 				if !(absence && cont) && bad == "" {
 					bad = "the test after the lookup is `if (" + strings.TrimSpace(cond) + ")` and its block " + map[bool]string{true: "continues", false: "does not continue unconditionally"}[cont]
 				}
